@@ -143,9 +143,10 @@ Build(s, par, caps, kids, k, pos, hi) ==     \* children of one node, left to ri
            node == [g |-> g, v |-> Build(s, par, caps, Kids(par, caps, g), 1, a, b)]
        IN lead \o <<node>> \o Build(s, par, caps, kids, k + 1, b, hi)
 Tree(s, par, caps, span) == Build(s, par, caps, Kids(par, caps, 0), 1, span[1], span[2])
-MatchTree(prog, s, m) ==
-  IF prog.ng = 0 THEN << [s |-> SubSeq(s, m.st, m.en - 1)] >> ELSE Tree(s, prog.par, m.caps, <<m.st, m.en>>)
 TreeDefinite(prog, m) == prog.ng = 0 \/ WellNested(prog.par, m.caps, <<m.st, m.en>>)
+MatchTree(prog, s, m) ==                      \* (when the nesting is not definite only the text of the match is)
+  IF prog.ng = 0 \/ ~TreeDefinite(prog, m) THEN << [s |-> SubSeq(s, m.st, m.en - 1)] >>
+  ELSE Tree(s, prog.par, m.caps, <<m.st, m.en>>)
 
 (* ---- analyze (C04, C06, C16) -- iterator record [cur, pend, done] --------------------------- *)
 AnaOpen(prog, s) ==
